@@ -1,6 +1,8 @@
-"""Correspondence (Tie B) of C09 / C11: the same calls sent to the Lean `model` executable (Model/Iter.lean);
-outputs canonicalised (grid rows / raster bytes / text) and compared."""
+"""Correspondence (Tie B) of C09 / C11: the same calls sent to the Lean `model` executable (Model/Iter.lean,
+Model/Colormap.lean, Model/Png.lean); outputs canonicalised (grid rows / raster bytes / text / PNG chunk contents) and
+compared."""
 import re
+import struct
 from raster import *
 
 WHITE = ('#fff', 'white', 'WHITE', (255, 255, 255), '#FFFFFF', '#ffffff')
@@ -98,3 +100,179 @@ def correspond_c09(cases, st, res):
                 impl = f'unparsable {ex!r}'
         pairs.append((c, line, impl))
     _compare(pairs, res)
+
+
+# ------------------------------------------------------------------------------ PNG / PPM with all colour options
+
+def colour_fields(kw):
+    """the colour keywords as request tokens; None if one of them cannot be expressed in the protocol"""
+    f = []
+    for k in ('dark', 'light'):
+        if k in kw:
+            f.append(f'{k}={col_token(kw[k])}')
+    for k in TYPE_OPTIONS:
+        if k in kw and kw[k] is not False:
+            f.append(f'o.{k}={col_token(kw[k])}')
+    if any('=x:' in t for t in f):
+        return None
+    return f
+
+
+def png_fields(data):
+    """container parsing of the real file: IHDR fields, contents of PLTE and tRNS, the inflated IDAT stream"""
+    if data[:8] != b'\x89PNG\r\n\x1a\n':
+        return 'unparsable signature'
+    pos, chunks = 8, {}
+    while pos + 12 <= len(data):
+        ln = struct.unpack('>I', data[pos:pos + 4])[0]
+        name = data[pos + 4:pos + 8].decode('latin-1')
+        if name != 'IDAT':
+            if name in chunks:
+                return 'unparsable duplicate chunk ' + name
+            chunks[name] = data[pos + 8:pos + 8 + ln]
+        pos += 12 + ln
+    raw = png_idat(data)
+    if raw is None or 'IHDR' not in chunks or len(chunks['IHDR']) != 13:
+        return 'unparsable IHDR / IDAT'
+    w, h, depth, ctype, cm, fm, il = struct.unpack('>2I5B', chunks['IHDR'])
+    if (cm, fm, il) != (0, 0, 0):
+        return f'unparsable methods {cm} {fm} {il}'
+    return (f'ok=1 w={w} h={h} depth={depth} ctype={ctype} plte={chunks.get("PLTE", b"").hex() or "-"} '
+            f'trns={chunks.get("tRNS", b"").hex() or "-"} idat={raw.hex()}')
+
+
+def _ptuple(t):
+    return (-1, -1, -1, -1) if t == 'T' else tuple(int(x) for x in t.split('.'))
+
+
+def _ptoken(c):
+    return 'T' if c == (-1, -1, -1, -1) else '.'.join(str(x) for x in c)
+
+
+def _field_diff(impl, model):
+    a, b = parse_kv(impl), parse_kv(model)
+    for k in ('err', 'ok', 'w', 'h', 'depth', 'ctype', 'plte', 'trns', 'idat', 'bytes'):
+        if a.get(k) != b.get(k):
+            x, y = a.get(k) or '', b.get(k) or ''
+            j = next((i for i, (p, q) in enumerate(zip(x, y)) if p != q), min(len(x), len(y)))
+            return k, j, x[max(0, j - 40):j + 80], y[max(0, j - 40):j + 80]
+    return 'other', 0, impl[:120], model[:120]
+
+
+def png_extra_cases(rnd, syms, tier):
+    """calls for the correspondence only (the judge stream is unchanged): corners of the palette assembly and of
+    `_make_colormap` that the judged generators reach rarely or never"""
+    cases = []
+
+    def add(v, fmt, kw, tag):
+        q, mk = syms.get(v, 0)
+        cases.append(RCase(v, q, mk, fmt, kw, 'extra:' + tag))
+
+    def sb(kw, n):
+        s, b = pick_scale_border(rnd, n, 300)
+        return add_sb(kw, s, b, rnd)
+    reps = 1 if tier == 'quick' else 4
+    # the versions on both sides of every size class boundary of _make_colormap (M4 | 1: 17 | 21 modules, 6 | 7: 41 | 45)
+    for v in (0, 1, 6, 7):
+        for opt in ('version_dark', 'version_light', 'alignment_dark', 'alignment_light', 'dark_module'):
+            add(v, 'png', {opt: rnd.choice(['red', '#00f', (1, 2, 3), (9, 9, 9, 9)])}, 'size-class-boundary')
+    for _ in range(reps):
+        vs = [rnd.choice([-3, -2, -1, 0]), rnd.choice([1, 2, 3, 6]), rnd.choice([7, 8, 10]), rnd.choice(ALL_VERSIONS)]
+        for v in vs:
+            n = 17 + 4 * v if v > 0 else 9 + 2 * (v + 4)
+            # a colour map without any colour (the stand-in selection looks at palette[1])
+            add(v, 'png', sb(dict(dark=None, light=None), n), 'all-transparent')
+            add(v, 'png', sb({k: None for k in TYPE_OPTIONS}, n), 'all-transparent')
+            # two colours with the same R, G, B and different alpha: their order in the palette is the order of the set
+            rgb = (rnd.randrange(256), rnd.randrange(256), rnd.randrange(256))
+            a1, a2, a3 = rnd.sample([0, 1, 7, 64, 100, 128, 200, 254], 3)
+            add(v, 'png', sb(dict(dark=rgb + (a1,), light=rgb + (a2,)), n), 'alpha-tie')
+            add(v, 'png', sb(dict(dark=rgb + (a1,), light=rgb, data_dark=rgb + (a2,), finder_dark=rgb + (a3,), quiet_zone=rnd.choice([None, 'white'])), n),
+                'alpha-tie')
+            # float alpha values, the five arguments whose product with 255 ends in .5 included
+            for a in (0.1, 0.3, 0.5, 0.7, 0.9, rnd.randrange(1001) / 1000, 1.0, 0.0, 0.998, 0.002):
+                add(v, 'png', dict(dark=(rnd.randrange(256), rnd.randrange(256), rnd.randrange(256), a), scale=rnd.randint(1, 2)), 'float-alpha')
+            # options for module types the size class does not have (dropped keys): colours, None, unreadable colours
+            for opt in ('version_dark', 'version_light', 'alignment_dark', 'alignment_light', 'dark_module'):
+                add(v, 'png', sb({opt: rnd.choice(['red', '#00f', (1, 2, 3), (9, 9, 9, 9), None])}, n), 'maybe-dropped-key')
+                add(v, 'png', {opt: rnd.choice(['nocolor', '#12', (300, 0, 0), (0, 0)])}, 'maybe-dropped-key-unreadable')
+                add(v, 'ppm', {opt: rnd.choice(['red', '#00f', (1, 2, 3), None, 'nocolor', (1, 2, 3, 4)])}, 'maybe-dropped-key')
+            # number of colours around the bit depth boundaries (2 | 3, 4 | 5) and the maximum (15)
+            for cnt in (1, 2, 3, 4, 14):
+                opts = rnd.sample(TYPE_OPTIONS, cnt)
+                cols = rnd.sample(NAMES[:2] + NAMES[3:], cnt)
+                add(v, 'png', sb(dict(zip(opts, cols)), n), f'count-{cnt}')
+            # a transparent type and the first colours of the CSS table as RGB / as RGBA with alpha 0 and others
+            first = [(240, 248, 255), (250, 235, 215), (0, 255, 255), (127, 255, 212), (240, 255, 255)]
+            kw = dict(light=None, dark=rnd.choice(first))
+            for opt, c in zip(rnd.sample(TYPE_OPTIONS[:12], 4), rnd.sample(first, 4)):
+                kw[opt] = c + (rnd.choice([0, 0, 5]),) if rnd.random() < 0.6 else c
+            add(v, 'png', sb(kw, n), 'stand-in')
+            # two-tone maps built from options (cheap iterator) and nearly two-tone maps (verbose iterator)
+            c1, c2 = rnd.sample(NAMES, 2)
+            dk = [o for o in TYPE_OPTIONS if o.endswith('dark') or o == 'dark_module']
+            lt = [o for o in TYPE_OPTIONS if o not in dk]
+            add(v, 'png', sb({**{o: c1 for o in dk}, **{o: c2 for o in lt}}, n), 'two-tone-by-options')
+            skip = rnd.choice(dk)
+            add(v, 'png', sb({**{o: c1 for o in dk if o != skip}, **{o: c2 for o in lt}, 'dark': c2}, n), 'two-colours-not-two-tone')
+            add(v, 'png', sb({**{o: 'black' for o in dk if o != skip}, 'light': None}, n), 'grey-transparent-by-options')
+            add(v, 'png', sb({rnd.choice(lt): 'black'}, n), 'grey-not-two-tone')
+            # PPM: colours with an alpha value that counts as opaque / does not
+            for col in ((1, 2, 3, 255), (1, 2, 3, 254), (1, 2, 3, 253), (1, 2, 3, 1.0), (1, 2, 3, 0.999), '#010203ff', '#010203fe', '#010203fd', '#123f', '#123e'):
+                add(v, 'ppm', dict(dark=col), 'ppm-alpha')
+    return cases
+
+
+def correspond_png(cases, st, res, rnd=None, syms=None, tier='quick'):
+    """every PNG (and PPM) call of the generators + the extra stream: IHDR fields, PLTE, tRNS and the inflated IDAT of
+    the real file against the model's, byte for byte"""
+    if not st.model_ok:
+        return
+    cases = [c for c in cases if c.fmt in ('png', 'ppm')]
+    if rnd is not None:
+        extra = png_extra_cases(rnd, syms, tier)
+        for c in extra:
+            execute(c)
+            res.count('tag:' + c.tag)
+            res.count('corr-extra-outcome:' + c.outcome)
+        cases = cases + extra
+    todo = []
+    for i, c in enumerate(cases):
+        cf = colour_fields(c.kw)
+        if cf is None:
+            res.count('png-correspondence-skipped:colour-not-expressible')
+            continue
+        line = f'{c.fmt} id={i} m={matrix_str(c.q.matrix)} {_sb(c)} {" ".join(cf)}'
+        if c.outcome != 'ok':
+            impl = f'err={c.outcome}'
+        elif c.fmt == 'png':
+            impl = png_fields(c.data)
+        else:
+            try:
+                head = re.match(rb'P6 #[^\n]*\n(\d+) (\d+) 255\n', c.data)
+                impl = 'ok=1 bytes=' + c.data[head.end():].hex()
+            except Exception as ex:  # noqa
+                impl = f'unparsable {ex!r}'
+        todo.append((c, line, impl))
+    outs = _run([t[1] for t in todo])
+    # the iteration order of a Python set is a runtime service: where it shows (the model says so), the model is
+    # asked again with the order `set` gives to the model's own colour values
+    again = []
+    for k, ((c, line, impl), o) in enumerate(zip(todo, outs)):
+        kv = parse_kv(o)
+        if kv.get('tie') == '1':
+            vals = [_ptuple(t) for t in kv['vals'].split(';')]
+            again.append((k, line + ' setorder=' + ';'.join(_ptoken(x) for x in set(vals))))
+            res.count('png-correspondence:set-order-supplied')
+    if again:
+        for (k, _), o in zip(again, _run([a[1] for a in again])):
+            outs[k] = o
+    for (c, line, impl), o in zip(todo, outs):
+        model = o.split(' ', 1)[1] if ' ' in o else o
+        # enc.exc_name reports IndexError / KeyError of the real code under their common base class
+        model = re.sub(r'^err=(IndexError|KeyError)$', 'err=LookupError', model)
+        res.corr_checked += 1
+        res.count(f'png-correspondence:{c.fmt}:' + ('refusal' if c.outcome != 'ok' else 'file'))
+        if model != impl:
+            fld, j, x, y = _field_diff(impl, model)
+            res.corr_diffs.append(dict(call=c.call(), replay=c.replay(), field=fld, first_difference_at=j, impl=x, model=y))
